@@ -14,7 +14,8 @@ let parse_oracle s = List.map (fun e -> if e = "f" then None else Some (bytes_of
 let parse_reqs s = List.map (fun e -> n_of_int (int_of_string e)) (split_commas s)
 let show_results rs = String.concat " " (List.map (function Some b -> "0:" ^ hex_of_bytes b | None -> "-1") rs)
 let show_ev evs =
-  let l = List.filter_map (function EvEntropy (n, ok) -> Some (string_of_int (int_of_nat n) ^ (if ok then "" else "f")) | _ -> None) evs in
+  let sh n ok = Some (string_of_int (int_of_nat n) ^ (if ok then "" else "f")) in
+  let l = List.filter_map (function EvInstantiate (n, ok) -> sh n ok | EvReseed (n, ok, _) -> sh n ok | EvGenerate _ -> None) evs in
   if l = [] then "-" else String.concat "+" l
 let zeros32 = String.make 64 '0'
 let () = iter_lines (fun line ->
